@@ -97,8 +97,13 @@ def run(res, f, tier):
                 ast = lx.asts[tok[T]]
                 pre, _ = lexre.literal_prefix(ast)
                 suf, _ = lexre.literal_suffix(ast)
-                ok = (lexre.min_len(ast) >= front + back and len(pre) >= front and all(c < 128 for c in pre[:front])
-                      and (back == 0 or (len(suf) >= back and all(c < 128 for c in suf[-back:]))))
+                # every lexeme is long enough and its first `front` / last `back` characters are single-byte (ASCII),
+                # so the byte offsets are in range and on character boundaries
+                anyc = ("lit", [(0, 0xD7FF), (0xE000, 0x10FFFF)])
+                ascii_ = ("lit", [(0, 127)])
+                shape = ("cat", [ascii_] * front + [("star", anyc)] + [ascii_] * back)
+                inc, w = lexre.included(ast, shape)
+                ok = lexre.min_len(ast) >= front + back and inc
                 ob(ok, "C06|slice|%s|%s" % (p, T),
                    "slice [%d..len-%d] of a %s lexeme in %s can be out of bounds or off a character boundary (token regex: min length %d, fixed prefix %r, fixed suffix %r)"
                    % (front, back, T, p, lexre.min_len(ast), "".join(map(chr, pre)), "".join(map(chr, suf))))
